@@ -298,6 +298,7 @@ class Unit:
                     "iter_inline": parse_subst(o.get("iterinline")),
                     "macro_rules": o.get("macro"), "macro_arg": o.get("macroarg"),
                     "ret_type": o.get("rettype"),
+                    "wrap": o["wrap"].split(",") if o.get("wrap") else [],
                     "manual": d.manual,
                 })
         return {"items": items}
